@@ -1189,7 +1189,7 @@ Definition spec_violations (cs : list case) : list Z := map c_id (filter spec_vi
 Definition unreadable (cs : list case) : list Z := map c_id (filter unreadable_case cs).
 (* "rendered without loss", the part that is evaluated per case and not proved: a microsecond-aligned TimestampNS in
    [0, 2^61) (until the year 2043) printed by the matrix writer reads back as exactly that many microseconds; an int64
-   millisecond timestamp in [0, 2^53) printed by the Prometheus writers reads back as exactly that many milliseconds *)
+   millisecond timestamp in [0, 2^43 * 1000) printed by the Prometheus writers reads back as exactly that many milliseconds *)
 Definition ts_us_exact (ts : Z) : bool :=
   if ((0 <=? ts) && (ts <? 2 ^ 61) && (ts mod 1000 =? 0))%Z then
     match read_fixed (f6_text (ts_seconds ts)) with
@@ -1197,13 +1197,18 @@ Definition ts_us_exact (ts : Z) : bool :=
     | _ => false
     end
   else true.
-Definition ms_exact (t : Z) : bool :=
-  if ((0 <=? t) && (t <? 2 ^ 53))%Z then
+Definition ms_exact_upto (bound t : Z) : bool :=
+  if ((0 <=? t) && (t <? bound))%Z then
     match read_fixed (wfloat64_text (ms_seconds t)) with
     | Some (false, n, k) => (n * 1000 =? t * 10 ^ Z.of_nat k)%Z
     | _ => false
     end
   else true.
+(* below 2^43 seconds (the year 280 700) neighbouring float64 values are less than a millisecond apart: every millisecond
+   timestamp reads back exactly (proved: ms_exact_holds). From 2^43 s on they are 1/512 s apart and two millisecond
+   timestamps can share one float64: the bound 2^53 claimed earlier is refuted by 8796093022208001 (printed ...208.002) *)
+Definition ms_exact (t : Z) : bool := ms_exact_upto (2 ^ 43 * 1000) t.
+Definition ms_exact_2p53 (t : Z) : bool := ms_exact_upto (2 ^ 53) t.
 Definition case_lossless (c : case) : bool :=
   match c_kind c with
   | KMatrix | KNumFmt => forallb (forallb (fun r => ts_us_exact (r_ts r))) (c_rows c)
